@@ -89,6 +89,7 @@ SHAPES = [
     ('203-redefine', [203008, 12001, 203255, 12001, 203009, 12001, 203255, 12001, 203000, 12001]),
     ('204', [204003, 31021, 12001, 2001, 1015, 204000, 12001]),
     ('204-replicated', [204002, 31021, 102002, 12001, 4024, 204000]),
+    ('204-nested', [204004, 31021, 12001, 204002, 31021, 12001, 2001, 204000, 12001, 204000, 12001]),
     ('205', [205005, 12001, 205001]),
     ('206-undefined', [206012, 63250, 12001]),
     ('206-defined', [206007, 12001, 12001]),
